@@ -238,6 +238,13 @@ func (e *eng) fresh(maxN int) {
 		}
 		r.Must("NewDense", budget, func() { d = graph.NewDense(n, edges) })
 		r.Must("NewSparse", budget, func() { s = graph.NewSparse(n, nbs) })
+		// the caller reuses the neighbour lists it passed to NewSparse (NewDense's argument is
+		// left alone: whether NewDense copies is property C06, which is not claimed here)
+		for v := range nbs {
+			for i := range nbs[v] {
+				nbs[v][i] = 0
+			}
+		}
 	}
 	e.add(d, s, m, "constructed")
 	r.Logf("new graph #%d: %s (nil-args=%v)", e.next-1, m, useNil)
@@ -291,6 +298,9 @@ func runOne(r *driver.Run) {
 			r.Must("sparse.AddVertex", budget, func() { en.s.AddVertex(a2) })
 			if !eqInts(a1, arg) || !eqInts(a2, arg) {
 				r.Fail("argument-modified", "AddVertex", "%s modified its argument", what)
+			}
+			for i := range a1 { // the caller reuses its buffer: the graph must not have kept it
+				a1[i], a2[i] = 0, 0
 			}
 			for _, v := range nb {
 				m.adj[key(v, m.n)] = true
@@ -356,6 +366,9 @@ func runOne(r *driver.Run) {
 			r.Must("sparse.InducedSubgraph", budget, func() { s = en.s.InducedSubgraph(a2) })
 			if !eqInts(a1, arg) || !eqInts(a2, arg) {
 				r.Fail("argument-modified", "InducedSubgraph", "%s modified its argument", what)
+			}
+			for i := range a1 {
+				a1[i], a2[i] = 0, 0
 			}
 			e.add(d, s, m.induced(arg), fmt.Sprintf("InducedSubgraph(%v) of #%d", arg, en.id))
 		case 6:
